@@ -24,6 +24,9 @@ pub struct Node {
     pub k: String, // dir | file | lnk | fifo | hard
     #[serde(default)]
     pub b: String, // link body (lnk) or hardlink target id as string (hard)
+    /// link body as hex bytes (bodies that are not valid UTF-8); takes precedence over `b`
+    #[serde(default)]
+    pub bhex: Option<String>,
     #[serde(default)]
     pub mode: Option<u32>,
     #[serde(default)]
@@ -177,7 +180,11 @@ impl Scratch {
                     }
                 }
                 "lnk" => {
-                    let b = CString::new(n.b.as_bytes()).unwrap();
+                    let raw: Vec<u8> = match &n.bhex {
+                        Some(h) => (0..h.len() / 2).filter_map(|i| u8::from_str_radix(&h[2 * i..2 * i + 2], 16).ok()).collect(),
+                        None => n.b.as_bytes().to_vec(),
+                    };
+                    let b = CString::new(raw).unwrap();
                     unsafe { libc::symlink(b.as_ptr(), c.as_ptr()) }
                 }
                 "fifo" => unsafe { libc::mkfifo(c.as_ptr(), mode) },
